@@ -79,6 +79,11 @@ def _scenario(ctx, case, nprocs):
     sim.fill(f, F)
     rs.fluxAdv.gridStep(f)
     out["flux"] = sim.piece(f)
+    # a direct change between the two layouts that are not neighbours (a multi-step route on most process grids)
+    f.setLayout('poloidal')
+    out["flux_then_poloidal"] = sim.piece(f)
+    f.setLayout('flux_surface')
+    out["and_back"] = sim.piece(f)
     # (5) parallel gradient per radius, and (3) v-parallel advection
     phi = rs.new_phi('v_parallel_1d')
     sim.fill(phi, Phi.astype(complex))
@@ -122,7 +127,8 @@ def _scenario(ctx, case, nprocs):
     return out
 
 
-NAMES4 = ["init_flux_surface", "init_v_parallel", "init_poloidal", "flux", "vpar", "vpar_keep", "pol", "pol_unchanged",
+NAMES4 = ["init_flux_surface", "init_v_parallel", "init_poloidal", "flux", "flux_then_poloidal", "and_back", "vpar", "vpar_keep",
+          "pol", "pol_unchanged",
           "step_f"]
 NAMES3 = ["pargrad", "rho", "qn_phi", "step_phi"]
 
